@@ -9,7 +9,6 @@ package c09
 import (
 	"fmt"
 
-	"github.com/tuneinsight/lattigo/v6/core/rgsw"
 	"github.com/tuneinsight/lattigo/v6/core/rlwe"
 	"github.com/tuneinsight/lattigo/v6/multiparty"
 	"github.com/tuneinsight/lattigo/v6/ring"
@@ -108,7 +107,10 @@ func runMultiparty(c *eng.Ctx, cfg pcfg) {
 
 	// ---- collective public key
 	{
-		mkP := func(tag string) multiparty.PublicKeyGenProtocol { reseed(tag); return multiparty.NewPublicKeyGenProtocol(p) }
+		mkP := func(tag string) multiparty.PublicKeyGenProtocol {
+			reseed(tag)
+			return multiparty.NewPublicKeyGenProtocol(p)
+		}
 		crp := mkP("x").SampleCRP(crs("cpk"))
 		mkShare := func(i int) multiparty.PublicKeyGenShare {
 			pr := mkP(fmt.Sprint("cpk", i))
@@ -133,7 +135,10 @@ func runMultiparty(c *eng.Ctx, cfg pcfg) {
 				dirtyAny(&s)
 			}
 			return s
-		}, func(a, b multiparty.PublicKeyGenShare, o *multiparty.PublicKeyGenShare) error { pr.AggregateShares(a, b, o); return nil })
+		}, func(a, b multiparty.PublicKeyGenShare, o *multiparty.PublicKeyGenShare) error {
+			pr.AggregateShares(a, b, o)
+			return nil
+		})
 		t.runSimple(simple{api: "multiparty.PublicKeyGenProtocol.GenPublicKey", variant: "-", build: func(dirty bool) ([]named, func() (string, error)) {
 			s := mkShare(0)
 			pk := rlwe.NewPublicKey(p)
@@ -146,7 +151,10 @@ func runMultiparty(c *eng.Ctx, cfg pcfg) {
 	}
 	// ---- Galois key / evaluation key
 	{
-		mkP := func(tag string) multiparty.GaloisKeyGenProtocol { reseed(tag); return multiparty.NewGaloisKeyGenProtocol(p) }
+		mkP := func(tag string) multiparty.GaloisKeyGenProtocol {
+			reseed(tag)
+			return multiparty.NewGaloisKeyGenProtocol(p)
+		}
 		crp := mkP("x").SampleCRP(crs("gkg"), e.evkPs...)
 		mkShare := func(i int) multiparty.GaloisKeyGenShare {
 			pr := mkP(fmt.Sprint("gkg", i))
@@ -175,7 +183,9 @@ func runMultiparty(c *eng.Ctx, cfg pcfg) {
 					dirtyAny(&s.EvaluationKeyGenShare)
 				}
 				return s
-			}, func(a, b multiparty.GaloisKeyGenShare, o *multiparty.GaloisKeyGenShare) error { return pr.AggregateShares(a, b, o) })
+			}, func(a, b multiparty.GaloisKeyGenShare, o *multiparty.GaloisKeyGenShare) error {
+				return pr.AggregateShares(a, b, o)
+			})
 			t.runSimple(simple{api: "multiparty.GaloisKeyGenProtocol.GenGaloisKey", variant: "-", build: func(dirty bool) ([]named, func() (string, error)) {
 				s := mkShare(0)
 				gk := rlwe.NewGaloisKey(p, e.evkPs...)
@@ -191,7 +201,10 @@ func runMultiparty(c *eng.Ctx, cfg pcfg) {
 		}
 	}
 	{
-		mkP := func(tag string) multiparty.EvaluationKeyGenProtocol { reseed(tag); return multiparty.NewEvaluationKeyGenProtocol(p) }
+		mkP := func(tag string) multiparty.EvaluationKeyGenProtocol {
+			reseed(tag)
+			return multiparty.NewEvaluationKeyGenProtocol(p)
+		}
 		crp := mkP("x").SampleCRP(crs("evk"), e.evkPs...)
 		mkShare := func(i int) multiparty.EvaluationKeyGenShare {
 			pr := mkP(fmt.Sprint("evk", i))
@@ -218,7 +231,9 @@ func runMultiparty(c *eng.Ctx, cfg pcfg) {
 				dirtyAny(&s)
 			}
 			return s
-		}, func(a, b multiparty.EvaluationKeyGenShare, o *multiparty.EvaluationKeyGenShare) error { return pr.AggregateShares(a, b, o) })
+		}, func(a, b multiparty.EvaluationKeyGenShare, o *multiparty.EvaluationKeyGenShare) error {
+			return pr.AggregateShares(a, b, o)
+		})
 		t.runSimple(simple{api: "multiparty.EvaluationKeyGenProtocol.GenEvaluationKey", variant: "-", build: func(dirty bool) ([]named, func() (string, error)) {
 			s := mkShare(0)
 			evk := rlwe.NewEvaluationKey(p, e.evkPs...)
@@ -340,7 +355,9 @@ func runMultiparty(c *eng.Ctx, cfg pcfg) {
 				dirtyAny(&s)
 			}
 			return s
-		}, func(a, b multiparty.KeySwitchShare, o *multiparty.KeySwitchShare) error { return pr.AggregateShares(a, b, o) })
+		}, func(a, b multiparty.KeySwitchShare, o *multiparty.KeySwitchShare) error {
+			return pr.AggregateShares(a, b, o)
+		})
 		// KeySwitch(ctIn, combined, opOut): unary shape with out == in
 		s := &scheme[multiparty.KeySwitchProtocol]{name: "mp", rq: rq, maxLvl: L,
 			newEval: func() multiparty.KeySwitchProtocol { return mkP("ks") },
@@ -350,7 +367,10 @@ func runMultiparty(c *eng.Ctx, cfg pcfg) {
 		}
 		sh := mkShare(0)
 		runUnary(t, s, urow[multiparty.KeySwitchProtocol]{api: "multiparty.KeySwitchProtocol.KeySwitch", outDeg: same1,
-			call: func(pr multiparty.KeySwitchProtocol, in, out *rlwe.Ciphertext) error { pr.KeySwitch(in, sh, out); return nil }}, "", variant, ct0, []named{{"combined", &sh}})
+			call: func(pr multiparty.KeySwitchProtocol, in, out *rlwe.Ciphertext) error {
+				pr.KeySwitch(in, sh, out)
+				return nil
+			}}, "", variant, ct0, []named{{"combined", &sh}})
 
 		// public-key switching
 		mkPP := func(tag string) multiparty.PublicKeySwitchProtocol {
@@ -397,7 +417,10 @@ func runMultiparty(c *eng.Ctx, cfg pcfg) {
 		}
 		psh := mkPShare(0)
 		runUnary(t, ps, urow[multiparty.PublicKeySwitchProtocol]{api: "multiparty.PublicKeySwitchProtocol.KeySwitch", outDeg: same1,
-			call: func(pr multiparty.PublicKeySwitchProtocol, in, out *rlwe.Ciphertext) error { pr.KeySwitch(in, psh, out); return nil }}, "", variant, ct0, []named{{"combined", &psh}})
+			call: func(pr multiparty.PublicKeySwitchProtocol, in, out *rlwe.Ciphertext) error {
+				pr.KeySwitch(in, psh, out)
+				return nil
+			}}, "", variant, ct0, []named{{"combined", &psh}})
 	}
 	// ---- threshold secret sharing
 	{
@@ -426,7 +449,9 @@ func runMultiparty(c *eng.Ctx, cfg pcfg) {
 					dirtyAny(&s)
 				}
 				return s
-			}, func(a, b multiparty.ShamirSecretShare, o *multiparty.ShamirSecretShare) error { return thr.AggregateShares(a, b, o) })
+			}, func(a, b multiparty.ShamirSecretShare, o *multiparty.ShamirSecretShare) error {
+				return thr.AggregateShares(a, b, o)
+			})
 			pts := []multiparty.ShamirPublicPoint{1, 2, 3}
 			t.runSimple(simple{api: "multiparty.Combiner.GenAdditiveShare", variant: "-", build: func(dirty bool) ([]named, func() (string, error)) {
 				cmb := multiparty.NewCombiner(p, 1, pts, 2)
@@ -443,5 +468,4 @@ func runMultiparty(c *eng.Ctx, cfg pcfg) {
 			}})
 		}
 	}
-	_ = rgsw.Ciphertext{}
 }
